@@ -6,6 +6,8 @@ from onl.netdev import Port, PortMonitor
 from onl.netdev.red_port import REDPort
 import onl.netdev.red_port as red_mod
 
+from ..net import valid_workloads as valid  # noqa: E402,F401
+
 ID = 'C09'
 SHRINK_KEEP = ('red',)
 TIERS = {'quick': {'runs': 12000, 'budget_s': 30}, 'thorough': {'runs': 600000, 'budget_s': 600}}
